@@ -118,7 +118,8 @@ class ErrScn:
             em = S.proc.execmodel
             spec = {"n": P["n"], "i": P["i"], "dropped": P["dropped"]}
             exc = EXC_SRC[P["exc"]]
-            sib = gw.remote_exec(SIBLING)
+            use_sibling = P.get("sibling", True)
+            sib = gw.remote_exec(SIBLING) if use_sibling else None
             kind = P["kind"]
             w.exploring = True
 
@@ -132,7 +133,8 @@ class ErrScn:
                     out.append(("exc", type(e).__name__, str(e)[:80]))
                 w.observe("sibling", out)
 
-            S.user(sibling, "sibling")
+            if use_sibling:
+                S.user(sibling, "sibling")
             if kind == "body":
                 ch = gw.remote_exec(BODY_RAISES.format(spec=spec, exc=exc))
                 peer_watch(ch, "peer")
@@ -224,7 +226,7 @@ class ErrScn:
         if "main-done" not in d:
             return V("hang", "main thread never finished")
         # sibling undisturbed
-        if d.get("sibling") != [([("echo", 1), ("echo", 2)],)]:
+        if P.get("sibling", True) and d.get("sibling") != [([("echo", 1), ("echo", 2)],)]:
             return V("sibling-disturbed", f"sibling channel saw {d.get('sibling')}")
         # gateway survived
         if "fresh-exc" in d or d.get("hasreceiver") != [(True,)] or d.get("fresh") != [(42,)]:
@@ -332,6 +334,14 @@ def run(tier: str, only=None) -> int:
         rep.sample({"sub": name, "params": P})
         harness.run_exploration(rep, PID, name + "/sync", ErrScn, P, b_sync, max_execs=cap)
         harness.run_exploration(rep, PID, name + "/stmt", ErrScn, P, b_stmt, stmt=stmt, max_execs=cap)
+        if C["exc"] in ("ValueError", "SystemExit") and C["i"] == 1 and not C["dropped"] or tier == "thorough":
+            # other worker exec models and transports: the gateway must stay usable there too
+            for tr, be in (("popen", "main_thread_only"), ("socket", "thread"), ("via", "thread")):
+                if C["kind"] != "body" and be == "main_thread_only":
+                    continue  # needs two concurrently running bodies
+                # main_thread_only runs one body at a time: no concurrently running sibling there
+                P2 = dict(C, transport=tr, backend=be, sibling=be != "main_thread_only")
+                harness.run_exploration(rep, PID, f"{name}/{tr}:{be}", ErrScn, P2, {"ps": 1, "free": 0}, max_execs=cap)
     return rep.finish()
 
 
